@@ -2,6 +2,7 @@ import Genshi.Wire
 import Genshi.WireCore
 import Genshi.Model.Tf
 import Genshi.Model.TfFill
+import Genshi.Model.TfFillSpec
 namespace Driver.C20
 open Genshi Genshi.Sexp Genshi.Tf
 
@@ -146,6 +147,16 @@ def handle : List Sexp → Option Sexp
       match Fill.fill c s with
       | none => pure (.atom "err")
       | some out => pure (.list [.atom "ok", streamToSexp out])
+  | [.atom "fillspec", c, s] => do
+      -- the documentation semantics of the filler on the forest `parse` reads; `outside` = the
+      -- forest is not in `okForest` (the recorded findings), `unmodelled` = not a well-nested stream
+      let c ← cfg? c
+      let s ← streamOfSexp? s
+      match Fill.parse s with
+      | none => pure (.atom "unmodelled")
+      | some ns =>
+          if Fill.okForest c ns then pure (.list [.atom "ok", streamToSexp (flattenList (Fill.fillSpec c ns))])
+          else pure (.atom "outside")
   | _ => none
 
 end Driver.C20
